@@ -61,7 +61,28 @@ Theorem C11_server_K2_witness :
   /\ limiter_blocked_on_sink k2_cfg k2_ops (tr_of k2_cfg k2_ops) = true.
 Proof. destruct k2_witness as (_ & _ & A & B & C & _). repeat split; assumption. Qed.
 
+From TarpcV Require Import ServerFuel ServerSpec ServerProofsPA4 ServerProofsPB6 ServerProofsPC10 ServerProofsPC3.
+
+(* server MONITOR theorems: after every op the in-flight gauge lies between the incarnations that
+   are surely still open and those possibly open, equals the timer gauge, and after a complete
+   idle poll equals exactly the yielded incarnations not yet answered, cancelled, expired or
+   abandoned; c11s_rel_ok exempts the K2 polls, c11s_ok is full strength outside that class *)
+Theorem C11_server_monitor_rel : forall (T C : Type) (tp : transport T response cmsg) (ctl : T -> C -> T)
+    (tfuel : T -> nat) (c : cfg) (t0 : T) (ops : list (op C)),
+  tfuel_ok tp tfuel ->
+  c11s_rel_ok c ops (fst (run tp ctl tfuel c t0 ops)) = true.
+Proof. exact s11_rel_holds. Qed.
+
+Theorem C11_server_monitor : forall (T C : Type) (tp : transport T response cmsg) (ctl : T -> C -> T)
+    (tfuel : T -> nat) (c : cfg) (t0 : T) (ops : list (op C)),
+  tfuel_ok tp tfuel ->
+  limiter_blocked_on_sink c ops (fst (run tp ctl tfuel c t0 ops)) = false ->
+  c11s_ok c ops (fst (run tp ctl tfuel c t0 ops)) = true.
+Proof. exact s11_holds. Qed.
+
 Print Assumptions C11_client_bound.
 Print Assumptions C11_client_monitor.
 Print Assumptions C11_server_timers_track_requests.
 Print Assumptions C11_server_K2_witness.
+Print Assumptions C11_server_monitor_rel.
+Print Assumptions C11_server_monitor.
